@@ -95,6 +95,8 @@ class Sim:
         self.stack_names = {}
         self.full_digest = bool(spec.get('full_digest'))
         self.focus_key = None
+        self.instr_key = tuple(spec['instr_fn']) if spec.get('instr_fn') else None
+        self.instr_codes = []
         self.focus_hits = 0
         self.lock_yields = 0
         st = spec['strategy']
@@ -150,6 +152,13 @@ class Sim:
             fk = self.focus_key
             if fk is not None and code.co_name == fk[1] and code.co_firstlineno == fk[2] and fn.endswith(fk[0]):
                 v |= 4
+            ik = self.instr_key
+            if ik is not None and code.co_name == ik[1] and code.co_firstlineno == ik[2] and fn.endswith(ik[0]):
+                # bytecode-level pre-emption points inside this one function (local INSTRUCTION events), line level elsewhere
+                v |= 8
+                if self.spec.get('gran', 'line') == 'line':
+                    mon.set_local_events(TOOL, code, mon.events.INSTRUCTION)
+                    self.instr_codes.append(code)
         self.scope_cache[code] = v
         return v
 
@@ -216,6 +225,18 @@ class Sim:
         if not sc:
             return DISABLE
         self.step = s = self.step + 1
+        if s >= self.stop or sc & 4:
+            self._slow(code, pos, sc)
+
+    def on_instr(self, code, pos):
+        """INSTRUCTION events of the one function that has them enabled locally."""
+        sc = self.scope_cache.get(code)
+        if not sc:
+            return None
+        self.step = s = self.step + 1
+        if self.full_digest:
+            cur = self.current
+            self.digest = ((self.digest * 1000003) ^ ((sc >> 3) * 131 + pos * 7 + 3 + (cur.cid if cur is not None else 99))) & 0xFFFFFFFFFFFF
         if s >= self.stop or sc & 4:
             self._slow(code, pos, sc)
 
@@ -458,6 +479,9 @@ class Sim:
         ev = mon.events.LINE if self.spec.get('gran', 'line') == 'line' else mon.events.INSTRUCTION
         mon.use_tool_id(TOOL, 'dsim')
         mon.register_callback(TOOL, ev, self.on_event_full if self.full_digest else self.on_event)
+        local_instr = self.instr_key is not None and ev != mon.events.INSTRUCTION
+        if local_instr:
+            mon.register_callback(TOOL, mon.events.INSTRUCTION, self.on_instr)
         for c in self.clients:
             t = threading.Thread(target=self._client_main, args=(c,), name='client-%d' % c.cid, daemon=True)
             c.thread = t
@@ -477,7 +501,11 @@ class Sim:
         self._handoff(first)
         ok = self.done_sem.acquire(timeout=self.watchdog_s)
         simlock.CURRENT[0] = None
+        for code in self.instr_codes:
+            mon.set_local_events(TOOL, code, 0)
         mon.set_events(TOOL, 0)
+        if local_instr:
+            mon.register_callback(TOOL, mon.events.INSTRUCTION, None)
         mon.register_callback(TOOL, ev, None)
         mon.free_tool_id(TOOL)
         if ok:
